@@ -257,7 +257,9 @@ class Timedelta(timedelta, Rule):
 
 class EmailStr(Str):
     format = "email"
-    regex = r"([A-Za-z0-9]+[.-_])*[A-Za-z0-9]+@[A-Za-z0-9-]+(\.[A-Z|a-z]{2,})+"
+    # ('-' last in the class: '.-_' is a RANGE that contains digits and upper-case letters,
+    # which made the repeated group ambiguous and the match exponential)
+    regex = r"([A-Za-z0-9]+[._-])*[A-Za-z0-9]+@[A-Za-z0-9-]+(\.[A-Z|a-z]{2,})+"
 
 
 # from pathlib import Path
